@@ -21,7 +21,7 @@ class C13(Prop):
             "fresh names; non-trivial = some accepted word")
     BOUNDS = "2 states (3 thorough), 2 stack symbols, pushes <= 2 (3 thorough), <= 2 transitions (3 thorough); all words <= 3 (4 thorough)"
     CLAUSES = ["C13.to_pda.lang", "C13.to_cfg.lang", "C13.to_cfg.contains", "C13.to_final_state.lang",
-               "C13.to_empty_stack.lang", "C13.operand_unchanged", "C13.*.terminates", "C13.*.no_foreign_exception"]
+               "C13.to_empty_stack.lang", "C13.to_empty_stack.to_cfg.lang", "C13.to_final_state.to_empty_stack.lang", "C13.operand_unchanged", "C13.*.terminates", "C13.*.no_foreign_exception"]
     ASSUMPTIONS = ["PDA languages decided exactly for all words up to the bound by the summary fixpoint (cross-checked by "
                    "configuration BFS in selftest)"]
     HORIZON = 10.0
@@ -132,6 +132,21 @@ class C13(Prop):
         after = O.extract_pda(p)
         ctx.expect((before.trans, before.start, before.start_stack, before.finals, before.states) ==
                    (after.trans, after.start, after.start_stack, after.finals, after.states), "C13.operand_unchanged")
+        # conversions of conversions, on a PDA assembled call by call (nothing declared in the constructor)
+        p2 = ctx.call(O.build_pda, c, scheme, True)
+        if not ctx.returns(p2, "C13.build", how="lazy"):
+            return
+        p2 = p2.value
+        r = ctx.call(lambda: p2.to_empty_stack().to_cfg())
+        if ctx.returns(r, "C13.to_empty_stack.to_cfg"):
+            x = ctx.call(O.extract_cfg, r.value)
+            if ctx.returns(x, "C13.to_empty_stack.to_cfg.extract"):
+                self._cmp(ctx, "C13.to_empty_stack.to_cfg.lang", x.value.lang_upto(n), ref["F"])
+        r = ctx.call(lambda: p2.to_final_state().to_empty_stack())
+        if ctx.returns(r, "C13.to_final_state.to_empty_stack"):
+            x = ctx.call(O.extract_pda, r.value)
+            if ctx.returns(x, "C13.to_final_state.to_empty_stack.extract"):
+                self._cmp(ctx, "C13.to_final_state.to_empty_stack.lang", x.value.lang_empty_stack(n), ref["E"])
 
 
 PROP = C13()
